@@ -42,7 +42,7 @@ func TestVerifC47(t *testing.T) {
 		"no file handle stays open (vfstest.WithOpenFileTracking), internal/manual in-use bytes for block cache and memtables are back at the " +
 		"pre-Open baseline, and the directory reopens to the model state. distinct_nontrivial = distinct (history, LSM shape) pairs.")
 	n := vcommon.Scale(120, 3000)
-	k := Knobs{Name: "C47", Units: 90, RangeKeys: true, Batches: true, BatchIters: true, Snapshots: true, LongIters: true, Iters: true, IterBurst: 8,
+	k := Knobs{Name: "C47", Units: 90, FlushGate: true, RangeKeys: true, Batches: true, BatchIters: true, Snapshots: true, LongIters: true, Iters: true, IterBurst: 8,
 		EFOS: true, Maint: true, Reopen: true, Ingest: true, Excise: true, BigValues: true, ValueSep: true, AuditEvery: 30, NoAutoCompactionsPct: 10}
 	R.Cases(n, func(i int, rng *rand.Rand) {
 		// settle leftovers of the previous case first
